@@ -107,6 +107,70 @@ fn mode_session(j: &J) -> String {
   format!("(session {})", out.join(" "))
 }
 
+// Dataflow of a plan step read back from its Debug text: `field: @0x<addr>: value` pairs.
+// The field called `out` is the step's output cell; every other addressed field is an operand.
+fn step_fields(txt: &str) -> Vec<(String, String)> {
+  let mut res = vec![];
+  for line in txt.lines() {
+    let t = line.trim();
+    if let Some(p) = t.find(": @0x") {
+      let name = &t[..p];
+      if name.chars().all(|c| c.is_alphanumeric() || c == '_') && !name.is_empty() {
+        let rest = &t[p + 5..];
+        let addr: String = rest.chars().take_while(|c| c.is_ascii_hexdigit()).collect();
+        res.push((name.to_string(), addr));
+      }
+    }
+  }
+  res
+}
+
+fn plan_dump(intrp: &Interpreter) -> String {
+  let plan = intrp.plan();
+  let plan = plan.borrow();
+  let mut out: Vec<String> = vec![];
+  let mut addrs: Vec<String> = vec![];
+  let mut cell = |a: &str, addrs: &mut Vec<String>| -> usize {
+    match addrs.iter().position(|x| x == a) { Some(p) => p, None => { addrs.push(a.to_string()); addrs.len() - 1 } }
+  };
+  for f in plan.iter() {
+    let txt = f.to_string();
+    let name: String = txt.chars().take_while(|c| c.is_alphanumeric() || *c == '_').collect();
+    let fields = step_fields(&txt);
+    let outs: Vec<usize> = fields.iter().filter(|(n, _)| n == "out").map(|(_, a)| cell(a, &mut addrs)).collect();
+    let ins: Vec<usize> = fields.iter().filter(|(n, _)| n != "out").map(|(_, a)| cell(a, &mut addrs)).collect();
+    let structured = txt.contains(" {\n") && !fields.is_empty();
+    out.push(format!("(pstep {} {} ({}) ({}))", qstr(&name), if structured { 1 } else { 0 },
+      outs.iter().map(|x| x.to_string()).collect::<Vec<_>>().join(" "),
+      ins.iter().map(|x| x.to_string()).collect::<Vec<_>>().join(" ")));
+  }
+  format!("(plan {})", out.join(" "))
+}
+
+fn mode_step(j: &J) -> String {
+  let src = j["src"].as_str().unwrap_or("");
+  let k = j["k"].as_u64().unwrap_or(1);
+  // interpreter A: interpret, then k single steps
+  let mut a = Interpreter::new(0);
+  let ra = eval(&mut a, src);
+  let s0 = dump_symbols(&a);
+  let mut singles: Vec<String> = vec![];
+  for _ in 0..k {
+    let r = match catch_unwind(AssertUnwindSafe(|| a.step(0, 1))) {
+      Ok(Ok(v)) => canon(&v), Ok(Err(e)) => errs(&e), Err(_) => "(panic step)".to_string() };
+    singles.push(format!("(st {} {})", r, dump_symbols(&a)));
+  }
+  // interpreter B: interpret, then one request for k steps
+  let mut b = Interpreter::new(0);
+  let rb = eval(&mut b, src);
+  let b0 = dump_symbols(&b);
+  let r = match catch_unwind(AssertUnwindSafe(|| b.step(0, k))) {
+    Ok(Ok(v)) => canon(&v), Ok(Err(e)) => errs(&e), Err(_) => "(panic step)".to_string() };
+  let bk = dump_symbols(&b);
+  let want_plan = j.get("plan").is_some();
+  format!("(stepobs {} {} (singles {}) {} {} (batch {} {}) {})", ra, s0, singles.join(" "), rb, b0, r, bk, if want_plan { plan_dump(&a) } else { "(plan)".to_string() })
+}
+
 fn run_bytes(bytes: &[u8]) -> (String, String, String) {
   // returns (load, reencode, run)
   let pp = match catch_unwind(|| ParsedProgram::from_bytes(bytes)) {
@@ -209,6 +273,7 @@ fn main() {
       "prog" => mode_prog(&j),
       "session" => mode_session(&j),
       "multi" => mode_multi(&j),
+      "step" => mode_step(&j),
       "bytecode" => mode_bytecode(&j),
       "loader" => mode_loader(&j),
       _ => "(badmode)".to_string(),
